@@ -308,7 +308,8 @@ simk_readable(int fd)
 	if (f->has_in) {
 		if (f->in_avail > f->in_pos)
 			return (1);
-		if (f->in_avail == f->in_total && f->in_end != SIMK_END_STALL)
+		if (f->in_avail == f->in_total && f->in_end != SIMK_END_STALL &&
+		    f->end_signal != 1)
 			return (1);
 	}
 	if (f->listening && f->acc_i < f->acc_n &&
@@ -366,6 +367,14 @@ compute(struct pollfd * fds, nfds_t n)
 				re |= POLLHUP;
 			if (f->err)
 				re |= POLLERR;
+			/* end of the inbound stream signalled by HUP / ERR */
+			if (f->has_in && f->end_signal != 0 &&
+			    f->in_avail == f->in_total && f->in_pos == f->in_total) {
+				if (f->in_end == SIMK_END_EOF)
+					re |= POLLHUP;
+				else if (f->in_end == SIMK_END_ERROR)
+					re |= POLLERR;
+			}
 		}
 		fds[i].revents = re;
 		if (re)
@@ -552,6 +561,18 @@ __wrap_send(int fd, const void * buf, size_t len, int flags)
 	if (!f->has_out)
 		return ((ssize_t)len);
 	simk_apply_due();
+	/*
+	 * Once the connection has hung up or failed (which poll reports as
+	 * POLLHUP / POLLERR in the modes that signal the end that way), sending
+	 * fails too - otherwise the descriptor would be "ready" for ever without
+	 * ever making progress, which no real socket does.
+	 */
+	if (f->has_in && f->end_signal != 0 && f->in_end != SIMK_END_STALL &&
+	    f->in_avail == f->in_total && f->in_pos == f->in_total) {
+		f->n_outerr++;
+		errno = EPIPE;
+		return (-1);
+	}
 	if (f->out_total >= f->out_fail_at) {
 		f->n_outerr++;
 		errno = f->out_errno;
